@@ -126,6 +126,17 @@ def ep_item_put(name, request, tok=None):
     return Response('iput|%s|%s|%s' % (name, tok, rid(request)), headers={'X-Sim-Route': 'item-put'})
 
 
+def ep_doc_v2(request, tok=None):
+    # declines -- depending on the QUERY, not on the path
+    if request.args.get('v') != '2':
+        raise NotFound(detail='doc-v2-declines-%s' % rid(request), is_breaking=False)
+    return Response('docv2|%s|%s' % (tok, rid(request)), headers={'X-Sim-Route': 'doc-v2'})
+
+
+def ep_doc(request, tok=None):
+    return Response('doc|%s|%s' % (tok, rid(request)), headers={'X-Sim-Route': 'doc'})
+
+
 def ep_nonresp(request, tok=None):
     return 'not-a-response-%s' % rid(request)
 
@@ -162,6 +173,8 @@ def build(cfg):
         GET('/item/<name>', ep_item_get),
         POST('/item/<name>', ep_item_post),
         Route('/item/<name>', ep_item_put, methods=['PUT']),
+        ('/doc', ep_doc_v2),
+        ('/doc', ep_doc),
         ('/boom', ep_boom),
         ('/dir/', ep_dir),
         ('/br/<x>/', ep_br),
